@@ -858,6 +858,9 @@ func (st *State) freshRef(hint string) Term {
 	st.declareOnce("is_fresh", "(declare-fun is_fresh (Ref) Int)")
 	st.x.freshCounter++
 	st.assume(tSame(app(sInt, nil, "is_fresh", r), Term{S: fmt.Sprint(st.x.freshCounter), Sort: sInt}))
+	if pub, ok := st.ghost["published"]; ok {
+		st.assume(tNot(tSelect(pub, r))) // newly allocated memory has not been handed to a shared cache
+	}
 	return r
 }
 
